@@ -435,9 +435,19 @@ def has_field(t, name, adt=None):
     return contains(t, p)
 
 
+def call_matches(name, sub):
+    """`sub` in name; `Trait::method` also matches a resolved `<T as path::Trait<..>>::method`"""
+    if sub in name:
+        return True
+    if "::" in sub and name.endswith(">::" + sub.rsplit("::", 1)[1]):
+        tr = sub.rsplit("::", 1)[0].split("::")[-1]
+        return ("::" + tr + "<") in name or ("::" + tr + ">") in name or (" " + tr + "<") in name or (" " + tr + ">") in name
+    return False
+
+
 def has_call(t, sub):
     def p(x):
-        return isinstance(x, tuple) and x[0] == "call" and sub in x[1]
+        return isinstance(x, tuple) and x[0] == "call" and call_matches(x[1], sub)
     return contains(t, p)
 
 
@@ -517,6 +527,11 @@ class TermBuilder:
         if k == "const":
             if "int" in op:
                 return ("const", op["int"])
+            if "promoted" in op:
+                pr = self.fn.d.get("promoted") or []
+                i = op["promoted"]
+                if i < len(pr) and len(pr[i]) == 1:
+                    return ("const", pr[i][0])
             return ("const", op.get("disp"))
         if k == "fn":
             return ("fn", op.get("resolved") or op["def"])
@@ -866,7 +881,7 @@ class Sim:
                 if is_panic_callee(name):
                     p.events.append(("panic", name, t.get("line"), tuple(t.get("mac") or ())))
                     return self._finish(p, "panic")
-                if not (is_transparent(name) and args):
+                if not (is_transparent(name) and args) and not is_log(t):
                     p.events.append(("call", name, args, t.get("line"), b))
                 dst = t["dst"]
                 env[(dst["l"], projkey(dst["proj"]))] = val
